@@ -567,6 +567,23 @@ func runC08(r *Runner) string {
 		r.Do("bech32.dec.spec", []string{sx(s)}, "bech32-dec-other-constant-spec", true, "")
 		r.Do("bech32.validate", []string{sx(s)}, "bech32-validate-other-constant", true, "")
 	}
+	// characters at and beyond the two ends of the printable range 33..126 inside the human readable part,
+	// under a checksum that is right for exactly that string
+	for _, ch := range []byte{0x20, 0x21, 0x7e, 0x7f, 0x1f, 0x80, 0x00, 0xff, 0x09, 0x0a} {
+		for pos := 0; pos < 3; pos++ {
+			base := "ab"
+			hrp := base[:pos%3] + string([]byte{ch}) + base[pos%3:]
+			if pos == 2 {
+				hrp = base + string([]byte{ch})
+			}
+			d5 := append([]byte{0}, hTo5(r.bytesN(20))...)
+			for _, v := range []string{hBechEncodeRaw(hrp, d5), hBechEncodeRaw(string([]byte{ch}), d5[:1+pos])} {
+				r.Do("bech32.dec", []string{sx(v)}, "bech32-dec-hrp-range-edge", true, fmt.Sprintf("byte %#x in the hrp", ch))
+				r.Do("bech32.dec.spec", []string{sx(v)}, "bech32-dec-hrp-range-edge-spec", true, "")
+				r.Do("bech32.validate", []string{sx(v)}, "bech32-validate-hrp-range-edge", true, "")
+			}
+		}
+	}
 	// every data-part length 0..12 for a one-character hrp, all-zero and all-ones data
 	for n := 0; n <= 14; n++ {
 		for _, fill := range []byte{0, 31, 16, 1} {
